@@ -12,7 +12,7 @@ GRANT_KINDS = ("LoginSuccess", "Transfer")
 CONFIGS = {
     "quick": {
         "C01": ["MC_ConnQuickLogin.cfg"],
-        "C02": ["MC_ConnQuickLogin.cfg"],
+        "C02": ["MC_ConnQuickLogin.cfg", "MC_ConnQuickPair.cfg"],   # + two-connection histories: the cookie the server ISSUED, presented again
         "C03": ["MC_ConnQuickRouting.cfg"],
         "C04": ["MC_ConnQuickLogin.cfg"],
         "C06": ["MC_ConnQuickLogin.cfg", "MC_ConnQuickRouting.cfg"],
@@ -20,7 +20,7 @@ CONFIGS = {
     },
     "thorough": {
         "C01": ["MC_ConnLogic.cfg"],
-        "C02": ["MC_ConnLogic.cfg"],
+        "C02": ["MC_ConnLogic.cfg", "MC_ConnPair.cfg"],
         "C03": ["MC_ConnLogic.cfg"],
         "C04": ["MC_ConnLogic.cfg"],
         "C06": ["MC_ConnLogic.cfg"],
@@ -368,6 +368,56 @@ def run(prop, tier):
         states += lt.distinct
         transitions += lt.generated
         extra_notes.append("application stage: %d Disconnect texts through passage::start with configured localization tables judged by Trace_Builtins" % len(lrecs))
+    if prop == "C04":
+        # frames that arrive in two pieces around a keep-alive tick (the receiving future is dropped and restarted with more than the length
+        # prefix buffered), from a client that echoes promptly: the handler must finish the frame and the connection must run to its end --
+        # not read on forever (virtual time; C04_EndsByItself / C04_NoPanic judged by Trace_ConnProps)
+        srecs = []
+        # ... followed, while routing is still under way, by a frame whose declared length exceeds the maximum: refused at once and in silence,
+        # whatever happened to the frame before it
+        for cut in (6, 9, 14):
+            srecs.append({"sched": {"auth": 0, "policy": "prompt", "ackAt": 1, "infoAt": 13, "lat": [40, 4, 2], "locale": "en_US", "bad": {"at": 24, "class": "lenTooBig"}},
+                          "seg": {"frame": "ClientInfo", "cut": cut, "pause": 7}, "judgeHang": True})
+        for cut in (6, 60, 150):
+            srecs.append({"sched": {"auth": 0, "policy": "prompt", "ackAt": 1, "infoAt": 25, "lat": [40, 4, 2], "locale": "en_US", "plugin": {"at": 13, "size": 200}, "bad": {"at": 30, "class": "lenTooBig"}},
+                          "seg": {"frame": "Plugin", "cut": cut, "pause": 7}, "judgeHang": True})
+        for cut in (6, 9):
+            srecs.append({"sched": {"auth": 0, "policy": "prompt", "ackAt": 1, "infoAt": 13, "lat": [4, 4, 2], "locale": "en_US"}, "seg": {"frame": "ClientInfo", "cut": cut, "pause": 7}, "judgeHang": True})
+        sinp, soutp = os.path.join(wd, "seg_in.ndjson"), os.path.join(wd, "seg_obs.ndjson")
+        vlib.write_ndjson(sinp, srecs)
+        vlib.run_bin(hx, ["conn-timed", "--in", sinp, "--out", soutp, "--seed", str(seed), "--threads", "6"], timeout=900)
+        sobs = vlib.read_ndjson(soutp)
+        stt = vlib.run_tlc("Trace_ConnProps", "Trace_ConnProps.cfg", wd, workers=1, timeout=600, markers=("FAIL", "NOTCONSUMED"),
+                           env_extra={"TRACE": soutp, "PROP": "C04"}, java_opts=["-Xss1g", "-Dtlc2.tool.queue.IStateQueue=StateDeque"])
+        if not stt.ok or stt.marked["NOTCONSUMED"] or stt.distinct != len(sobs) + 1:
+            raise vlib.ToolError("trace validation of the segmented timed runs did not consume all %d records:\n%s" % (len(sobs), stt.output[-2000:]))
+        for f in stt.marked["FAIL"]:
+            o = sobs[f["line"] - 1]
+            rep.violation("C04 %s [timed: %s cut after %s bytes, rest %ss later, across a keep-alive tick]" % ("+".join(sorted(f["clauses"])), srecs[f["line"] - 1]["seg"]["frame"], srecs[f["line"] - 1]["seg"]["cut"], srecs[f["line"] - 1]["seg"]["pause"]),
+                          {"failing_clauses": sorted(f["clauses"]), "schedule": srecs[f["line"] - 1], "observed": {k: o[k] for k in o if k != "hist"}, "seed": seed})
+        states += stt.distinct
+        transitions += stt.generated
+        extra_notes.append("%d frames split around a keep-alive tick under virtual time, judged by Trace_ConnProps" % len(sobs))
+    if prop == "C03":
+        # the final packet whatever its size: a small configured maximum frame length (300) with a signed cookie of a large profile, and with a
+        # long configured no-target message (Trace_Listener!C03_FinalPacketWhateverItsSize)
+        import listener_check
+        big = "A" * 700
+        zscs = [{"family": "C03len", "maxLen": 300, "timeoutS": 8, "secret": "a secret of the operator", "expectEnd": "transfer",
+                 "adapters": {"authentication": {"fixed": {"profile": {"id": "11111111-2222-4333-8444-555555555555", "name": "Fixed",
+                                                                        "properties": [{"name": "textures", "value": big, "signature": big}]}}},
+                              "discovery": {"fixed": {"targets": [{"identifier": "t", "address": "10.9.8.7:25565"}]}}}},
+                {"family": "C03len", "maxLen": 300, "timeoutS": 8, "expectEnd": "disconnect",
+                 "adapters": {"authentication": {"fixed": {"profile": {"id": "11111111-2222-4333-8444-555555555555", "name": "Fixed"}}},
+                              "discovery": {"fixed": {"targets": []}},
+                              "localization": {"fixed": {"default_locale": "en_US", "messages": {"en": {"disconnect_no_target": "no server for you " + "x" * 2000}}}}}}]
+        zfails, zobs, zt = listener_check.app_stage("C03", zscs, wd, "finalsize")
+        for sc, o, clauses in zfails:
+            rep.violation("C03 %s [application: configured maximum frame length %s, expecting %s: got %s]" % ("+".join(clauses), sc["maxLen"], sc["expectEnd"], o.get("end")),
+                          {"failing_clauses": clauses, "scenario": sc, "observed": o, "seed": seed})
+        states += zt.distinct
+        transitions += zt.generated
+        extra_notes.append("application level: %d logins with a small configured maximum and a large final packet, judged by Trace_Listener" % len(zobs))
     if prop == "C04":
         # "the CONFIGURED maximum frame size": frames around the operator's value against the whole application (passage::start from a
         # configuration value), judged by Trace_Listener
